@@ -337,6 +337,9 @@ pub fn unit_history(ctx: &Ctx, u: usize) -> History {
         return h;
     }
     let mut r = Rng::derive(ctx.seed, &[0xC01, 1, u as u64]);
+    if u % 5000 == 7 {
+        return deep_rewrap_history(&mut r);
+    }
     let (maxc, maxr) = if ctx.thorough { (512, 128) } else { (40, 12) };
     let mut prof = Profile::general()
         .with(T_MALFORMED, 4)
@@ -395,6 +398,26 @@ pub fn unit_history(ctx: &Ctx, u: usize) -> History {
         let s = Gen::new(&mut r, c, rw).soup(len);
         h.calls.push(Call::FeedStr(s));
     }
+    h
+}
+
+/// One logical line wrapped over 10^5 rows of a 1-3 column screen, then re-wrapped to a width in the
+/// 10^4..10^5 range in one resize ("resizing to any size", "every prior history"): work that is linear in
+/// the cells involved but exercises whatever an implementation does per joined row - iteration depth,
+/// recursion, repeated copying (added after seed10_C01: a recursive `Reflow::next`).
+pub fn deep_rewrap_history(r: &mut Rng) -> History {
+    let cols = r.range(1, 3);
+    let n = *r.pick(&[60_000usize, 120_000, 300_000, 300_000]);
+    let mut h = History::new(cols, r.range(1, 3), if r.chance(1, 2) { None } else { Some(n + 1000) });
+    let text: String = (0..n).map(|i| (b'a' + (i % 26) as u8) as char).collect();
+    let head: String = text.chars().take(1000).collect();
+    let tail: String = text.chars().skip(1000).collect();
+    h.calls.push(Call::Feed(head));
+    h.calls.push(Call::FeedStr(tail));
+    let wide = *r.pick(&[n + 10, n / 2, n / 7, 65_536, n * cols]);
+    h.calls.push(Call::Resize(wide.max(1000), r.range(1, 3)));
+    h.calls.push(Call::FeedStr("xyz\r\n".into()));
+    h.calls.push(Call::Resize((wide / 3).max(500), 2));
     h
 }
 
@@ -555,11 +578,20 @@ pub fn c01_steady(h: &History, rep: &mut Report) {
 /// Miri shard: a few hundred small hostile histories (no cost monitor, no process tricks)
 pub fn work_miri(ctx: &Ctx, rep: &mut Report) {
     let n = 20 * ctx.nshards;
+    let t0 = std::time::Instant::now();
     for u in ctx.units(n) {
+        // the interpreter is ~10^4 times slower: no counts of 65535 and no parameters beyond 16 bits
+        // (they wrap to arbitrary counts) here - the natively compiled tiers cover those; and a
+        // wall-clock budget per shard, whose exhaustion only shortens the shard (it is reported)
+        if t0.elapsed().as_secs() > 900 {
+            rep.count("miri_histories_not_started_within_the_shard_budget", 1);
+            continue;
+        }
         let mut r = Rng::derive(ctx.seed, &[0xC01, 9, u as u64]);
-        let prof = Profile::general().with(T_SOUP, 3).with(T_MALFORMED, 3).boost(&[T_ALT], 3).resizes(20).huge(3).size(9, 5).length((1, 5), (1, 4)).big(0);
+        let prof = Profile::general().with(T_SOUP, 3).with(T_MALFORMED, 3).boost(&[T_ALT], 3).resizes(20).huge(0).size(9, 5).length((1, 5), (1, 4)).big(0);
         let h = gen::history(&mut r, &prof);
         rep.evaluations += 1;
+        rep.count("miri_histories_run", 1);
         match guarded(|| {
             run(&h, u as u64, true);
             run_collector(&h)
